@@ -86,3 +86,9 @@ NA.update({
  "C18": "static analysis declines: panic freedom for all byte strings needs value-level invariants across passes for ~190 unwrap/expect/panic/assert sites plus every index/slice/arithmetic site; no sound value analysis in reach, and a frozen site inventory would alarm on harmless edits",
  "C26": "static analysis declines: layout insensitivity and verbatim transfer depend on the hand-written scanner Tokenizer::code agreeing with Rust's lexical grammar on all texts (a language-level property of a character-level state machine); no structural necessary clause that is not a text-equality proxy",
 })
+CLAIMED.update({
+ "C12": dict(level="other", design="§9.5 C12", technique="static analysis: symbolic evaluation / value-flow over the MIR of normalize::precedence (the associativity table in expand_nonterm, the substitution step replace_symbol, the direction folds, Assoc::from_str / Default)",
+   text="Decides the structural clause behind the documented tiers: left/right/none/all map to (OneThen(current,previous),Forward) / (same,Backward) / Every(previous) / Every(current); replace_symbol rewrites and steps the state as documented; Forward/Backward fold over iter_mut()/.rev(); the keywords and the default `all`; levels sorted and deduplicated. Language equivalence with the documented grammar is NOT decided.",
+   note="trusted: rustc MIR; term evaluator"),
+})
+NA.pop("C12", None)
